@@ -24,6 +24,13 @@ Calibration
 * eye accepts only an int or str chunks argument (documented); tri uses only the first chunk
   size of each axis (values/shape/dtype/sum(chunks) are still what the statement demands).
 * meshgrid returns a tuple in NumPy 2 and a list before: the container type is not compared.
+
+Sibling facet (vf/mon/siblings.py): every case is also built a second time with ONE result-relevant parameter changed
+(another stop / num / endpoint / k / M / offset / dtype / fill value / function / indexing / sparse / chunks).
+The two lazily built collections must not share output keys unless their stand-alone values are equal (label
+``<op>:<param>-not-in-name:siblings-share-keys``); for a seeded ~15 % of the cases both are also computed in one graph and
+compared with their stand-alone values (``<op>:<param>:differs-when-computed-with-sibling``).  Counters siblings_built /
+siblings_computed_together / siblings_with_different_values have floors.
 """
 from __future__ import annotations
 
